@@ -328,3 +328,98 @@ Proof.
   - clear. induction k as [|k IH]; [reflexivity|exact IH].
   - rewrite (Hall x (or_introl eq_refl)). apply IH. intros y Hy. apply Hall. right. exact Hy.
 Qed.
+
+(* ================================================================================================= *)
+(* (3) the chunked (Polars) accessors at an ARBITRARY element type: naturality in the element          *)
+(*     (the string impl `Vec1View<Option<&str>> for &ChunkedArray<StringType>` is observed by          *)
+(*     harness-pl c07pl.rs `observe_str` through a rendering str -> f64 of its elements)               *)
+(* ================================================================================================= *)
+From Coq Require Import Floats.
+From Tevec Require Import Model.Containers Proofs.Containers.
+From Tevec Require Run.Codec Run.RunC07.
+
+(* the same array with every (non-null) element rendered through f; layout and validity untouched *)
+Definition chunked_map {A B} (f : A -> B) (c : chunked A) : chunked B := map (map (option_map f)) c.
+
+Section ChunkedNatural.
+  Context {A B : Type} (f : A -> B).
+
+  Lemma nth_error_map' {X Y} (g : X -> Y) (l : list X) i : nth_error (map g l) i = option_map g (nth_error l i).
+  Proof. revert i. induction l as [|x l IH]; intros [|i]; try reflexivity. cbn. apply IH. Qed.
+
+  Lemma seg_map {X Y} (g : X -> Y) a b (l : list X) : seg a b (map g l) = map g (seg a b l).
+  Proof. unfold seg. rewrite skipn_map, firstn_map. reflexivity. Qed.
+
+  Lemma chunked_map_to_list (c : chunked A) :
+    chunked_to_list (chunked_map f c) = map (option_map f) (chunked_to_list c).
+  Proof. unfold chunked_to_list, chunked_map. rewrite concat_map. reflexivity. Qed.
+
+  Lemma chunked_map_len (c : chunked A) : chunked_len (chunked_map f c) = chunked_len c.
+  Proof. rewrite !chunked_len_spec, chunked_map_to_list. apply map_length. Qed.
+
+  Lemma chunked_map_get (c : chunked A) i :
+    chunked_get (chunked_map f c) i = option_map (option_map f) (chunked_get c i).
+  Proof. rewrite !chunked_get_spec, chunked_map_to_list. apply nth_error_map'. Qed.
+
+  Lemma chunked_map_slice (c : chunked A) a b :
+    chunked_slice (chunked_map f c) a b = map (option_map f) (chunked_slice c a b).
+  Proof. unfold chunked_slice. rewrite chunked_map_to_list. apply seg_map. Qed.
+
+  Lemma chunked_map_skip (c : chunked A) : forall a,
+    chunked_skip (chunked_map f c) a = chunked_map f (chunked_skip c a).
+  Proof.
+    induction c as [|ch rest IH]; intros a; [reflexivity|].
+    cbn [chunked_map map chunked_skip]. rewrite map_length. destruct (a <? length ch).
+    - cbn [map]. rewrite skipn_map. reflexivity.
+    - apply IH.
+  Qed.
+
+  Lemma chunked_map_take (c : chunked A) : forall n,
+    chunked_take (chunked_map f c) n = chunked_map f (chunked_take c n).
+  Proof.
+    induction c as [|ch rest IH]; intros n; [reflexivity|].
+    cbn [chunked_map map chunked_take]. rewrite map_length. destruct (n <=? length ch).
+    - cbn [map]. rewrite firstn_map. reflexivity.
+    - cbn [map]. f_equal. apply IH.
+  Qed.
+
+  (* slicing keeps the chunk layout, also under the rendering *)
+  Lemma chunked_map_slice_chunks (c : chunked A) a b :
+    chunked_slice_chunks (chunked_map f c) a b = chunked_map f (chunked_slice_chunks c a b).
+  Proof. unfold chunked_slice_chunks. rewrite chunked_map_skip, chunked_map_take. reflexivity. Qed.
+End ChunkedNatural.
+
+(* ---- the observation of Run/RunC07.v under a rendering of the elements ---- *)
+Lemma flat_map_map {X Y Z} (g : X -> Y) (c : Y -> list Z) (l : list X) :
+  flat_map c (map g l) = flat_map (fun x => c (g x)) l.
+Proof. induction l as [|x l IH]; [reflexivity|]. cbn. rewrite IH. reflexivity. Qed.
+
+Lemma observe_map {X Y} (g : X -> Y) (c : Y -> list Z) (l : list X) :
+  Run.RunC07.observe c (map g l) None = Run.RunC07.observe (fun x => c (g x)) l None.
+Proof.
+  unfold Run.RunC07.observe. cbv zeta. rewrite map_length. unfold Run.Codec.cells.
+  f_equal. f_equal.
+  { apply flat_map_ext. intros i. rewrite nth_error_map'. destruct (nth_error l i); reflexivity. }
+  f_equal. rewrite flat_map_map. f_equal. f_equal. rewrite <- map_rev, flat_map_map. f_equal. f_equal. f_equal.
+  apply flat_map_ext. intros a. apply flat_map_ext. intros b. rewrite seg_map, flat_map_map. reflexivity.
+Qed.
+
+Lemma observe_ext {X} (c1 c2 : X -> list Z) (l : list X) :
+  (forall x, c1 x = c2 x) -> Run.RunC07.observe c1 l None = Run.RunC07.observe c2 l None.
+Proof.
+  intros H. unfold Run.RunC07.observe. cbv zeta. unfold Run.Codec.cells.
+  f_equal. f_equal.
+  { apply flat_map_ext. intros i. destruct (nth_error l i); [apply H|reflexivity]. }
+  f_equal. rewrite (flat_map_ext _ _ H). f_equal. f_equal. rewrite (flat_map_ext _ _ H). f_equal. f_equal. f_equal.
+  apply flat_map_ext. intros a. apply flat_map_ext. intros b. rewrite (flat_map_ext _ _ H). reflexivity.
+Qed.
+
+(* what the run computes for an array whose elements were rendered as floats by `enc` IS the observation of the array
+   itself, cell encoder `c_float o enc` - for every element type and every rendering *)
+Lemma run_chunked_rendered {A} (enc : A -> float) (c : chunked A) :
+  Run.RunC07.run_chunked (chunked_map enc c)
+  = Run.RunC07.observe (Run.Codec.c_opt (fun x => Run.Codec.c_float (enc x))) (chunked_to_list c) None.
+Proof.
+  unfold Run.RunC07.run_chunked. rewrite chunked_map_to_list, observe_map.
+  apply observe_ext. intros [x|]; reflexivity.
+Qed.
